@@ -30,7 +30,9 @@ Schemas == [
   B10 |-> [allOf |-> <<O(<<"a">>, <<I(20)>>)>>,
            oneOf |-> <<O(<<"c", "k">>, <<SD(<<"x">>), E(<<"p">>)>>) @@ [required |-> <<"k">>], O(<<"k">>, <<E(<<"q">>)>>) @@ [required |-> <<"k">>]>>],
   B11 |-> [allOf |-> <<O(<<"a">>, <<I(20)>>)>>,
-           anyOf |-> <<O(<<"c", "k">>, <<SD(<<"x">>), E(<<"p">>)>>) @@ [required |-> <<"k">>], O(<<"k">>, <<E(<<"q">>)>>) @@ [required |-> <<"k">>]>>]
+           anyOf |-> <<O(<<"c", "k">>, <<SD(<<"x">>), E(<<"p">>)>>) @@ [required |-> <<"k">>], O(<<"k">>, <<E(<<"q">>)>>) @@ [required |-> <<"k">>]>>],
+  \* strings only (what every form encoding can carry without a typing question)
+  B12 |-> O(<<"b", "c">>, <<[type |-> "string"], SD(<<"x">>)>>)
 ]
 
 Bodies == [
@@ -46,10 +48,29 @@ Bodies == [
   B8 |-> {EmptyObj, Obj(<<"a">>, <<Num(4)>>)},
   B9 |-> {EmptyObj, Obj(<<"b">>, <<Num(4)>>), Obj(<<"a", "b">>, <<Num(400), Num(4)>>)},
   B10 |-> {Obj(<<"k">>, <<St(<<"p">>)>>), Obj(<<"k">>, <<St(<<"q">>)>>), Obj(<<"a", "k">>, <<Num(4), St(<<"p">>)>>), Obj(<<"k">>, <<St(<<"z">>)>>)},
-  B11 |-> {Obj(<<"k">>, <<St(<<"p">>)>>), Obj(<<"k">>, <<St(<<"q">>)>>), Obj(<<"a", "k">>, <<Num(4), St(<<"p">>)>>), Obj(<<"k">>, <<St(<<"z">>)>>)}
+  B11 |-> {Obj(<<"k">>, <<St(<<"p">>)>>), Obj(<<"k">>, <<St(<<"q">>)>>), Obj(<<"a", "k">>, <<Num(4), St(<<"p">>)>>), Obj(<<"k">>, <<St(<<"z">>)>>)},
+  B12 |-> {EmptyObj, Obj(<<"b">>, <<St(<<"s">>)>>), Obj(<<"c">>, <<St(<<"y">>)>>), Obj(<<"b", "c">>, <<St(<<"s">>), St(<<"y">>)>>)}
 ]
 
 Secs == {"none", "pass_ignore", "pass_read", "fail_read", "fail_read_then_pass", "fail_read_multi"}
+
+JsonFamily == {"application/problem+json", "application/vnd.api+json"}
+Forms == {"application/x-www-form-urlencoded", "multipart/form-data"}
+OtherMts == JsonFamily \cup {"application/yaml"} \cup Forms
+(* which (schema, body) pairs a media type is crossed with.  Forms carry flat objects; an empty form is no body at all  *)
+(* (excluded); whether the form field text "s" is an ill-typed integer, and whether a multipart text part "4" is the    *)
+(* integer 4, are questions of property C06 (open findings there), so forms get well-typed fields only and multipart    *)
+(* string fields only.                                                                                                   *)
+Pairs(ids) == UNION {{<<id, v>> : v \in Bodies[id]} : id \in ids}
+MtCases(mt) ==
+   CASE mt = "application/problem+json" -> Pairs(DOMAIN Schemas)
+     [] mt = "application/vnd.api+json" -> Pairs({"B1", "B5"})
+     [] mt = "application/yaml" -> Pairs({"B1", "B2", "B4", "B7"})
+     [] mt = "application/x-www-form-urlencoded" ->
+           {<<"B1", Obj(<<"b">>, <<St(<<"s">>)>>)>>, <<"B1", Obj(<<"a">>, <<Num(4)>>)>>, <<"B1", Obj(<<"a", "b">>, <<Num(4), St(<<"s">>)>>)>>,
+            <<"B8", Obj(<<"a">>, <<Num(4)>>)>>}      \* (B9 requires a field it does not declare: undeclared form fields are C06's)
+           \cup {<<"B12", v>> : v \in Bodies["B12"] \ {EmptyObj}}
+     [] mt = "multipart/form-data" -> {<<"B12", v>> : v \in Bodies["B12"] \ {EmptyObj}}
 
 VARIABLE case
 Init ==
@@ -62,7 +83,14 @@ Init ==
            \* pad: white space around the JSON text (a trailing newline, as curl --data-binary @file sends; indentation): part of the bytes received
            /\ (pad # "none" => ~un /\ ct = "application/json" /\ sec \in {"none", "pass_read", "fail_read"})
            /\ case = [kind |-> "body", id |-> id, schema |-> Schemas[id], v |-> v, sec |-> sec, preset |-> preset, skip |-> skip, ct |-> ct,
-                      unsized |-> un, pad |-> pad]
+                      mt |-> "application/json", unsized |-> un, pad |-> pad]
+   \* mt: the media type the body is declared with and sent in -- every media type the library has a decoder for that can carry an
+   \* object (the JSON family, YAML, urlencoded and multipart forms; forms carry flat objects only: MtIds).  The property speaks of
+   \* "the request body", not of JSON.
+   \/ \E mt \in OtherMts, sec \in {"none", "pass_read"}, preset \in BOOLEAN, skip \in BOOLEAN :
+        \E iv \in MtCases(mt) : LET id == iv[1]  v == iv[2] IN
+           case = [kind |-> "body", id |-> id, schema |-> Schemas[id], v |-> v, sec |-> sec, preset |-> preset, skip |-> skip, ct |-> mt,
+                   mt |-> mt, unsized |-> FALSE, pad |-> "none"]
    \/ \E loc \in {"query", "header", "cookie"}, shape \in {"int", "str", "arr"}, explode \in {"unset", "true", "false"},
          present \in BOOLEAN, skip \in BOOLEAN, other \in BOOLEAN :
         /\ (shape = "arr" => loc = "query")
